@@ -3,11 +3,13 @@ package checks
 import (
 	"bytes"
 	"fmt"
+	"io"
 	"os"
 	"path/filepath"
 	"sort"
 	"syscall"
 	"testing"
+	"time"
 
 	"github.com/RoaringBitmap/roaring/v2"
 	segment "github.com/blevesearch/scorch_segment_api/v2"
@@ -42,14 +44,40 @@ func (c faultCase) reserve(path string) {
 	}
 }
 
-// syncFaultPath returns a destination on which every write succeeds (up to the pipe capacity)
-// and the final sync fails: a FIFO. It models a write failure that the operating system
-// reports only when the file is synced.
+// syncFaultPath returns a destination on which every write succeeds and the final sync fails:
+// a FIFO. It models a write failure that the operating system reports only when the file is
+// synced. A background reader drains the pipe (so that writes of any size complete) until the
+// path is removed again.
 func syncFaultPath(tag string) (string, bool) {
 	p := drive.NewPath(tag)
 	if err := syscall.Mkfifo(p, 0o600); err != nil {
 		return "", false
 	}
+	r, err := os.OpenFile(p, os.O_RDONLY|syscall.O_NONBLOCK, 0)
+	if err != nil {
+		os.Remove(p)
+		return "", false
+	}
+	go func() {
+		defer r.Close()
+		buf := make([]byte, 64<<10)
+		for idle := 0; idle < 30000; {
+			n, err := r.Read(buf)
+			if n > 0 {
+				idle = 0
+				continue
+			}
+			if err != nil && err != io.EOF {
+				return
+			}
+			// no writer at the moment: finished once the destination is gone
+			if _, serr := os.Lstat(p); serr != nil {
+				return
+			}
+			idle++
+			time.Sleep(time.Millisecond)
+		}
+	}()
 	return p, true
 }
 
@@ -207,8 +235,8 @@ func runFaultCase(c faultCase) *Violation {
 				return violation(prop, "persist/file-left-behind", "Persist failed (%v) at offset %d of %d but left a file at the path", perr, off, size)
 			}
 		}
-		// the failure is reported only by the final sync (outputs that fit into a pipe buffer)
-		if c.Op == "persist" && size <= 32<<10 {
+		// the failure is reported only by the final sync (outputs up to 256 KiB; the pipe is drained in the background)
+		if c.Op == "persist" && size <= 256<<10 {
 			if p3, ok := syncFaultPath("c17s"); ok {
 				perr := drive.Safe(func() error { return sb.Persist(p3) })
 				_, serr := os.Lstat(p3)
@@ -336,7 +364,7 @@ func runFaultCase(c faultCase) *Violation {
 				return violation(prop, "merge/file-left-behind", "Merge failed (%v) at offset %d of %d (buffer %d) but left a file at the path", merr, off, len(data), c.BufSize)
 			}
 		}
-		if len(data) <= 32<<10 {
+		if len(data) <= 256<<10 {
 			if p3, ok := syncFaultPath("c17ms"); ok {
 				merr := drive.Safe(func() error {
 					_, _, e := drive.Merge(segs, drops, p3, root.ChunkMode, nil, nil)
